@@ -252,6 +252,20 @@ Proof.
   repeat first [apply Inv_disconnect_step | apply Inv_remove_cp | inv_step].
 Qed.
 
+Lemma Inv_prune_if8 i : Inv (prune_if8 i).
+Proof.
+  unfold prune_if8. apply Inv_bind; [apply Inv_exists_as | intros b]. destruct b; [|apply Inv_ret].
+  apply Inv_bind; [apply Inv_get | intros ifs].
+  apply Inv_bind; [apply Inv_for_each_set; intros k; apply Inv_disconnect_step | intros _].
+  apply Inv_bind; [apply Inv_get | intros dp]. apply Inv_remove_cp.
+Qed.
+
+Lemma Inv_api_prune8 : Inv api_prune8.
+Proof.
+  unfold api_prune8.
+  repeat first [apply Inv_prune_node7 | apply Inv_prune_comp7 | apply Inv_prune_ns7 | apply Inv_prune_if8 | inv_step].
+Qed.
+
 Lemma Inv_api_prune7 : Inv api_prune7.
 Proof.
   unfold api_prune7.
@@ -264,7 +278,7 @@ Proof.
     repeat first [apply Inv_api_remove_node | apply Inv_api_remove_facility | apply Inv_api_remove_switch
                  | apply Inv_api_remove_link | apply Inv_api_remove_ns_topo | apply Inv_api_remove_component
                  | apply Inv_api_node_remove_ns | apply Inv_api_disconnect | apply Inv_api_unpeer6 | apply Inv_api_unpeer
-                 | apply Inv_api_remove_interface | apply Inv_api_remove_child | apply Inv_api_prune7 | apply Inv_api_prune | inv_step].
+                 | apply Inv_api_remove_interface | apply Inv_api_remove_child | apply Inv_api_prune8 | apply Inv_api_prune7 | apply Inv_api_prune | inv_step].
 Qed.
 
 (* ---- the frame theorem ---- *)
